@@ -142,12 +142,20 @@ def _unimodular(rs, g):
     return lo @ up
 
 
-def realise(prob, family, pseed):
+MAGS = (dict(t=0, soft=0), dict(t=60, soft=0), dict(t=-60, soft=0), dict(t=0, soft=-40))
+
+
+def realise(prob, family, pseed, mag=None):
     """(K, B) with B v = mu K v having exactly the abstract spectrum on the active amplitudes.
     P = [[Q, 0], [C, I]] over (both, konly); K = P' Dk P, B = s P' diag(Db, 0) P: B's konly columns are
     null, K couples them.  "bonly" amplitudes (no stiffness) get a B column coupled to the loaded ones: they do
-    not change the pencil reduced by the null pattern of K.  All entries are small integers (times the
-    power-of-two scale): exact in binary64."""
+    not change the pencil reduced by the null pattern of K.  All entries are small integers (times powers of
+    two): exact in binary64.
+    MAGNITUDE (mag): t - the whole pair is multiplied by 2^t (eigenvalues invariant); soft - the loaded
+    amplitudes are split into two uncoupled blocks and the second block of K and of B is multiplied by 2^soft
+    (eigenvalues invariant as well); that soft block carries the smallest positive multiplier / the lowest
+    frequency.  Null columns are exact structural zeros whatever the magnitude of the others."""
+    mag = mag or MAGS[0]
     rs = np.random.RandomState(pseed % (2 ** 31))
     n, cls = prob["n"], prob["cls"]
     both = [i for i in range(n) if cls[i] == "both"]
@@ -156,21 +164,37 @@ def realise(prob, family, pseed):
     mus = [x for x in prob["sp"] if x != 0]
     if len(mus) != g:
         raise AssertionError("lattice problem with a zero multiplier on a loaded amplitude")
-    mus = [mus[i] for i in rs.permutation(g)]        # which eigenvector carries which multiplier: irrelevant, seeded
+    graded = bool(mag["soft"]) and g >= 2
+    g1 = (g + 1) // 2 if graded else g              # stiff block first, soft block after it
+    if graded:
+        mus = sorted(mus)
+        ext = mus[:g - g1] if family == "lb" else mus[g1:]      # most negative mu / largest mu go to the soft block
+        rest = mus[g - g1:] if family == "lb" else mus[:g1]
+        rest = [rest[i] for i in rs.permutation(len(rest))]
+        mus = rest + ext
+    else:
+        mus = [mus[i] for i in rs.permutation(g)]    # which eigenvector carries which multiplier: irrelevant, seeded
     dk, db = [], []
     for mu in mus:
         j = 2 ** int(rs.randint(0, 3))
         dk.append(mu.denominator * j)                 # mu = db / dk  (lb: -1/lambda, freq: 1/omega^2)
         db.append(mu.numerator * j)
     P = np.zeros((g + r, g + r))
-    P[:g, :g] = _unimodular(rs, g)
+    P[:g1, :g1] = _unimodular(rs, g1)
+    if graded:
+        P[g1:g, g1:g] = _unimodular(rs, g - g1)
     if r:
-        P[g:, :g] = rs.randint(-1, 2, size=(r, g))
+        P[g:, :g1] = rs.randint(-1, 2, size=(r, g1))           # stiffness-only amplitudes couple to the stiff block
         P[g:, g:] = np.eye(r)
     Dk = np.diag([float(x) for x in dk] + [float(2 ** int(rs.randint(0, 3))) for _ in range(r)])
     Db = np.diag([float(x) for x in db] + [0.0] * r)
     Kr = P.T @ Dk @ P
     Br = float(prob["s"]) * (P.T @ Db @ P)
+    if graded:
+        Kr[g1:g, g1:g] *= 2.0 ** mag["soft"]
+        Br[g1:g, g1:g] *= 2.0 ** mag["soft"]
+        if np.any(Kr[g1:g, :g1] != 0) or np.any(Br[g1:g, :g1] != 0) or np.any(Kr[g1:g, g:] != 0):
+            raise AssertionError("soft block is coupled")
     idx = both + konly
     K = np.zeros((n, n))
     B = np.zeros((n, n))
@@ -179,14 +203,16 @@ def realise(prob, family, pseed):
     if r and np.any(B[:, konly] != 0):
         raise AssertionError("stiffness-only amplitude received a load column")
     bonly = [i for i in range(n) if cls[i] == "bonly"]
+    stiff = both[:g1]
     for b in bonly:
-        x = rs.randint(-1, 2, size=g).astype(float)
+        x = rs.randint(-1, 2, size=g1).astype(float)
         if not x.any():
             x[0] = 1.0
-        B[b, both] = float(prob["s"]) * x
-        B[both, b] = float(prob["s"]) * x
+        B[b, stiff] = float(prob["s"]) * x
+        B[stiff, b] = float(prob["s"]) * x
         B[b, b] = float(prob["s"]) * (64.0 if family == "freq" else float(rs.choice([-3, -2, 2, 3])))
-    return K, B
+    t = 2.0 ** mag["t"]
+    return K * t, B * t
 
 
 # ----------------------------------------------------------------------------------------
@@ -320,9 +346,10 @@ def residuals(o, K, B, vals, vecs, cls=None):
     for c in range(min(vals.shape[0], vecs.shape[1])):
         z = complex(vals[c])
         if not (math.isfinite(z.real) and math.isfinite(z.imag)):
-            out.append(dict(skip=True, r=dy(0), b=dy(0), v=dy(0)))
+            out.append(dict(skip=True, r=dy(0), b=dy(0), v=dy(0), q=dy(0)))
             continue
         v = vecs[q:, c]
+        qz = 0.0
         with np.errstate(all="ignore"):
             if o["api"] in LB_APIS:
                 fac = z.real
@@ -335,10 +362,18 @@ def residuals(o, K, B, vals, vecs, cls=None):
             rn = float(np.linalg.norm(r))
             vn = float(np.linalg.norm(v))
             bound = 2.0 ** -30 * (nK + abs(fac) * nB) * vn
+            if o["api"] not in LB_APIS and not o["sparse"] and nK > 0:
+                # dense frequency path = QZ on (-M, K): backward stable normwise only, so an eigenvalue mu = 1/omega^2
+                # carried by a block of tiny magnitude is returned with the forward error
+                #   |d mu| <~ eps (||M|| + |mu| ||K||) ||v||^2 / (v'Kv);   logged with eps = 2^-42 and admitted by
+                # the value clause next to its 2^-30 max mu (an observation like the residual)
+                vKv = abs(complex(np.vdot(v, K @ v)))
+                mu_o = abs(1.0 / fac) if fac != 0 else 0.0
+                qz = 2.0 ** -42 * (nB + mu_o * nK) * vn * vn / vKv if vKv > 0 else float("inf")
         if not (math.isfinite(rn) and math.isfinite(bound)):
-            out.append(dict(skip=False, r=dy(float("inf")), b=dy(0), v=dy(vn)))
+            out.append(dict(skip=False, r=dy(float("inf")), b=dy(0), v=dy(vn), q=dy(0)))
         else:
-            out.append(dict(skip=False, r=dy(rn), b=dy(bound), v=dy(vn)))
+            out.append(dict(skip=False, r=dy(rn), b=dy(bound), v=dy(vn), q=dy(qz if math.isfinite(qz) else 0)))
     return out
 
 
@@ -409,8 +444,14 @@ def _lattice_chunk(rng):
     impl, family, tasks = _FORK["impl"], _FORK["family"], _FORK["tasks"]
     out = []
     for (eid, prob, opts, pseed, gid) in tasks[rng[0]:rng[1]]:
-        K, B = realise(prob, family, pseed)
-        gen = dict(kind="lattice", family=family, pseed=pseed, group="L%d" % gid, form=FORMS[eid % 3],
+        mag = MAGS[(eid // 3) % 4]
+        if mag["soft"] and family == "freq" and not opts["sparse"]:
+            # dense frequency path = LAPACK QZ on (-M, K), accurate normwise only: a block 2^-40 below the rest is
+            # at its deflation threshold (observed: the soft block's frequencies come back wrong or as inf).
+            # Not judged: that path gets the whole pair scaled instead.
+            mag = MAGS[2]
+        K, B = realise(prob, family, pseed, mag)
+        gen = dict(kind="lattice", family=family, pseed=pseed, group="L%d" % gid, form=FORMS[eid % 3], mag=mag,
                    p=dict(n=prob["n"], cls=prob["cls"], sp=[frac_pair(x) for x in prob["sp"]], s=frac_pair(prob["s"])))
         out.append(make_event(eid, impl, prob, opts, K, B, gen))
     return out
@@ -465,9 +506,14 @@ def _group_worker(i):
     for o in spec["opts"]:
         o = dict(o)
         hist, hseed = o.pop("hist", None), o.pop("hseed", 0)
+        tpow = o.pop("tpow", 0)                      # the whole pair times 2^tpow: same abstract problem
+        if family == "freq" and not o["sparse"] and gen.get("grade") in ("soft", "softB"):
+            excluded["dense QZ path on a graded pair (normwise accuracy only): not judged"] += 1
+            continue
         for s in o.pop("scales", [Fraction(1)]):
             prob = dict(n=K.shape[0], cls=cls, sp=sp, s=s)
-            g = dict(gen, scale=float(s), group="%s-s%s" % (gen["group"], s), form=FORMS[(i + len(events)) % 3])
+            g = dict(gen, scale=float(s), group="%s-s%s" % (gen["group"], s), form=FORMS[(i + len(events)) % 3],
+                     tpow=tpow)
             panel = None
             if o["api"].startswith("panel_") and panel_def is not None:
                 # the real Panel builds its own matrices - on an object with a past (history before the call)
@@ -477,7 +523,8 @@ def _group_worker(i):
                 except Exception as ex:
                     excluded["history %s not executable: %s" % (g["hist"], type(ex).__name__)] += 1
                     continue
-            e = make_event(0, impl, prob, dict(o), K, B * float(s), g, panel=panel)
+            t = 2.0 ** tpow
+            e = make_event(0, impl, prob, dict(o), K * t, B * (float(s) * t), g, panel=panel)
             if e["obs"]["exc"] in ARPACK_FAILURES:
                 excluded["ARPACK broke down / did not converge (solver contract not met): %s" % e["obs"]["exc"]] += 1
                 continue
@@ -497,6 +544,9 @@ def attach_peers(events):
                 continue
             if o["api"] in ("freq", "panel_freq") and (e["p"]["zs"] or any(c in ("konly", "bonly") for c in e["p"]["cls"])):
                 continue
+            if o["api"] in ("freq", "panel_freq") and (e["gen"].get("grade") in ("soft", "softB")
+                                                       or (e["gen"].get("mag") or {}).get("soft")):
+                continue                 # dense QZ on a graded pair: accurate normwise only (see residuals)
             groups[(e["gen"]["group"], o["api"], o["sort"], json.dumps(e["p"]["s"]))].append(e)
     for key, es in groups.items():
         de = [e for e in es if not e["o"]["sparse"]]
@@ -671,7 +721,48 @@ def panel_matrices(d, family):
     return K, B
 
 
-def random_pair(rs, family, n, nnull, nkonly, regime, nbonly=0):
+GRADES = (None, "t+60", "t-60", "soft", "softB")
+
+
+def apply_grade(K, B, family, grade, rs):
+    """MAGNITUDE classes for the random pairs: "t+60"/"t-60": the whole pair times 2^+-60; "soft": half of the
+    loaded amplitudes are uncoupled from the rest and that block of K and of B is multiplied by 2^-40, after
+    B's soft block has been scaled (power of two) so that it holds the smallest positive multiplier / lowest
+    frequency; "softB": the same block of B alone times 2^-30 (tiny load / mass block: its multipliers /
+    frequencies move up by 2^30 / 2^15)"""
+    if grade in ("t+60", "t-60"):
+        t = 2.0 ** (60 if grade == "t+60" else -60)
+        return K * t, B * t
+    if grade not in ("soft", "softB"):
+        return K, B
+    loaded = [i for i in range(K.shape[0]) if K[i, i] != 0 and B[i, i] != 0]
+    if len(loaded) < 6:
+        return K, B
+    J = sorted(int(i) for i in rs.permutation(loaded)[:len(loaded) // 2])
+    other = [i for i in range(K.shape[0]) if i not in set(J)]
+    for M in (K, B):
+        M[np.ix_(J, other)] = 0.0
+        M[np.ix_(other, J)] = 0.0
+    if grade == "softB":
+        B[np.ix_(J, J)] *= 2.0 ** -30
+        return K, B
+
+    def extreme(rows):
+        Kb, Bb = K[np.ix_(rows, rows)], B[np.ix_(rows, rows)]
+        L = np.linalg.cholesky(Kb)
+        A = np.linalg.solve(L, np.linalg.solve(L, Bb).T).T
+        w = np.linalg.eigvalsh(0.5 * (A + A.T))
+        return float(-w.min()) if family == "lb" else float(w.max())
+    rest = [i for i in other if K[i, i] != 0]
+    e_soft, e_rest = extreme(J), extreme(rest)
+    if e_soft > 0 and e_rest > 0 and e_soft < 1.5 * e_rest:
+        B[np.ix_(J, J)] *= 2.0 ** math.ceil(math.log2(1.5 * e_rest / e_soft))
+    K[np.ix_(J, J)] *= 2.0 ** -40
+    B[np.ix_(J, J)] *= 2.0 ** -40
+    return K, B
+
+
+def random_pair(rs, family, n, nnull, nkonly, regime, nbonly=0, grade=None):
     """seeded random symmetric pair: K positive definite on a random subset, others null; B symmetric
     (lb: indefinite, freq: positive definite on its own support) with `nkonly` null columns inside the subset
     and `nbonly` (<= nnull) columns on amplitudes without stiffness: the null pattern of B is equal to / a
@@ -709,6 +800,7 @@ def random_pair(rs, family, n, nnull, nkonly, regime, nbonly=0):
             B[b, loaded] = x
             B[loaded, b] = x
             B[b, b] = 3.0 if family == "freq" else -0.3
+    K, B = apply_grade(K, B, family, grade, rs)
     if family == "lb":
         # place the reference load: most negative mu at -1/lam_min, lam_min in the regime (> 1) or not
         cls = classify(K, B)
@@ -778,14 +870,17 @@ def gen_matrices(gen):
     if gen["kind"] == "lattice":
         prob = dict(n=gen["p"]["n"], cls=gen["p"]["cls"], sp=[Fraction(*x) for x in gen["p"]["sp"]],
                     s=Fraction(*gen["p"]["s"]))
-        return realise(prob, fam, gen["pseed"])
+        return realise(prob, fam, gen["pseed"], gen.get("mag"))
     if gen["kind"] == "panel":
         K, B = panel_matrices(gen["def"], fam)
-        return K, B * gen["scale"]
+        t = 2.0 ** gen.get("tpow", 0)
+        return K * t, B * (gen["scale"] * t)
     if gen["kind"] == "random":
         rs = np.random.RandomState(gen["rseed"])
-        K, B = random_pair(rs, fam, gen["n"], gen["nnull"], gen["nkonly"], gen["regime"], gen.get("nbonly", 0))
-        return K, B * gen["scale"]
+        K, B = random_pair(rs, fam, gen["n"], gen["nnull"], gen["nkonly"], gen["regime"], gen.get("nbonly", 0),
+                           gen.get("grade"))
+        t = 2.0 ** gen.get("tpow", 0)
+        return K * t, B * (gen["scale"] * t)
     raise ValueError(gen["kind"])
 
 
@@ -903,6 +998,8 @@ def run_family(prop, family, tier, seed, build, impl=None, skip_mc=False, max_la
             out.append(dict(api="lb", sparse=True, num=k1, sort=False, reduced=False, pos=0, scales=two))
             out.append(dict(api="lb", sparse=False, num=min(k1, 3), sort=False, reduced=False, pos=0, scales=[Fraction(1)]))
             out.append(dict(api="lb", sparse=True, num=nums(), sort=False, reduced=False, pos=0, scales=[Fraction(1)]))
+            out.append(dict(api="lb", sparse=True, num=k1, sort=False, reduced=False, pos=0, tpow=-60))
+            out.append(dict(api="lb", sparse=False, num=min(k1, 3), sort=False, reduced=False, pos=0, tpow=[60, -60][int(rs.randint(0, 2))]))
             if with_panel:
                 for sparse, h in ((True, "fresh"), (True, hist()), (True, hist()), (False, hist())):
                     out.append(dict(api="panel_lb", sparse=sparse, num=nums(), sort=False, reduced=False, pos=0,
@@ -916,6 +1013,8 @@ def run_family(prop, family, tier, seed, build, impl=None, skip_mc=False, max_la
             out.append(dict(api="freq", sparse=True, num=nums(), sort=False, reduced=False, pos=0))
             out.append(dict(api="freq", sparse=False, num=nums(), sort=False, reduced=False, pos=0))
             out.append(dict(api="freq", sparse=False, num=nums(), sort=True, reduced=True, pos=0))
+            out.append(dict(api="freq", sparse=True, num=k1, sort=True, reduced=False, pos=0, tpow=-60))
+            out.append(dict(api="freq", sparse=False, num=k1, sort=False, reduced=False, pos=0, tpow=[60, -60][int(rs.randint(0, 2))]))
             if with_panel:
                 for sparse, h in ((True, "fresh"), (True, hist()), (False, hist())):
                     out.append(dict(api="panel_freq", sparse=sparse, num=nums(), sort=True, reduced=False, pos=0,
@@ -943,8 +1042,10 @@ def run_family(prop, family, tier, seed, build, impl=None, skip_mc=False, max_la
         # restarts (45 s at n = 300, nothing to judge): keep those inputs small, with a few large ones
         regime = bool(rs.rand() < 0.7) if (n <= 40 or j % 12 == 5) else True
         rseed = int(rs.randint(0, 2 ** 31 - 1))
+        grade = GRADES[(j // 4) % len(GRADES)] if n >= 12 else GRADES[j % 3]
         specs.append(dict(gen=dict(kind="random", family=family, group="R%d" % j, rseed=rseed, n=n, nnull=nnull,
-                                   nkonly=nkonly, nbonly=nbonly, regime=regime), opts=opts_for(False), maxdof=None))
+                                   nkonly=nkonly, nbonly=nbonly, regime=regime, grade=grade),
+                          opts=opts_for(False), maxdof=None))
     _FORK.update(impl=impl, family=family, specs=specs)
     if tier == "quick":
         parts = [_group_worker(i) for i in range(len(specs))]
